@@ -41,3 +41,29 @@ Example C15_examples :
   /\ annotation_of (s_ "@jsxRuntime classic @jsx  custom more") = Some (s_ "custom")
   /\ annotation_of (s_ "@jsx") = None /\ annotation_of (s_ "@jsxFrag F") = None.
 Proof. vm_compute. repeat split; reflexivity. Qed.
+
+(* ---- the whole traversal ---------------------------------------------------------------- *)
+From VJ Require Import Model.Types Lemmas.NodeInd Lemmas.VisitPragma Lemmas.IdentityProofs.
+
+(* visiting ANY node - a statement, a function, a class, other JSX, nested to any depth - leaves the
+   pragma as the annotation scan set it (the resolveType hooks as hypotheses): every element of the
+   module is therefore lowered in a state with the module's pragma, and C15_factory names its callee *)
+Theorem C15_pragma_module_wide :
+  forall (E : env) (hook_call hook_declarator : node -> st -> node * st),
+    (forall n s, pragma (snd (hook_call n s)) = pragma s) ->
+    (forall n s, pragma (snd (hook_declarator n s)) = pragma s) ->
+    forall (n : node) (m : mode) (s : st),
+      pragma (snd (visit E hook_call hook_declarator m n s)) = pragma s.
+Proof. intros E hc hd H1 H2 n m s. exact (visit_pragma E hc hd H1 H2 n m s). Qed.
+Print Assumptions C15_pragma_module_wide.
+
+Theorem C15_pragma_module_wide_when_off :
+  forall (E : env), o_resolve_type (e_opts E) = false ->
+    forall (n : node) (m : mode) (s : st),
+      pragma (snd (visit E (hook_call E) (hook_declarator E) m n s)) = pragma s.
+Proof.
+  intros E Hoff. apply C15_pragma_module_wide; intros n s.
+  - rewrite (hook_call_off E Hoff). reflexivity.
+  - rewrite (hook_declarator_off E Hoff). reflexivity.
+Qed.
+Print Assumptions C15_pragma_module_wide_when_off.
